@@ -193,6 +193,13 @@ MUTANTS = [
      [(CO + "oracles/price_feed/market_map.rs",
        "            let decimals = raw\n                .decimals\n                .try_into()\n                .map_err(|_| TickerError::decimals_too_large())?;",
        "            let decimals = raw.decimals as u8;", 0)]),
+    ("C06-sort-before-deposits-merged", "P5", "rollup map sorted before the deposits are merged in",
+     [(SQ + "proposal/commitment.rs",
+       "    let mut rollup_ids_to_txs = group_rollup_data_submissions_by_rollup_id(rollup_data_bytes);\n",
+       "    let mut rollup_ids_to_txs = group_rollup_data_submissions_by_rollup_id(rollup_data_bytes);\n    rollup_ids_to_txs.sort_unstable_keys();\n", 0),
+      (SQ + "proposal/commitment.rs",
+       "    }\n\n    rollup_ids_to_txs.sort_unstable_keys();\n    let rollup_ids_root",
+       "    }\n\n    let rollup_ids_root", 0)]),
     ("C08-right-child-midpoint", "M4", "re-attached right child taken as the midpoint of the remaining nodes",
      [(MK + "lib.rs",
        "        let root = complete_root(n.checked_sub(i_plus_one).unwrap());\n        i_plus_one.checked_add(root).unwrap()",
